@@ -28,6 +28,7 @@ func init() {
 			{Name: "ElemEllipsis-width-1", File: "ast/ast_gop.go", Old: "\treturn p.Ellipsis + 3\n}", New: "\treturn p.Ellipsis + 1\n}", Expect: "end-width/ElemEllipsis.Ellipsis"},
 			{Name: "CallExpr-no-width", File: "ast/ast.go", Old: "func (x *CallExpr) End() token.Pos {\n\tif x.NoParenEnd != token.NoPos {\n\t\treturn x.NoParenEnd\n\t}\n\treturn x.Rparen + 1", New: "func (x *CallExpr) End() token.Pos {\n\tif x.NoParenEnd != token.NoPos {\n\t\treturn x.NoParenEnd\n\t}\n\treturn x.Rparen", Expect: "end-width/CallExpr.Rparen"},
 			{Name: "lambda-last-from-End", File: "parser/parser.go", Old: "\t\t\tLast:        p.pos,\n", New: "\t\t\tLast:        rhs[len(rhs)-1].End() + 1,\n", Expect: "parser-pos-arith/parser.parseLambdaExpr"},
+			{Name: "cmd-call-ends-at-next-token", File: "parser/parser.go", Old: "\t\tcase len(list) > 0:\n\t\t\tnoParenEnd = list[len(list)-1].End()\n\t\tdefault:", New: "\t\tcase len(list) > 0:\n\t\t\tnoParenEnd = p.pos\n\t\tdefault:", Expect: "end-next-token/parser.parseCallOrConversion"},
 			{Name: "Pos-offset", File: "ast/ast_gop.go", Old: "func (p *SliceLit) Pos() token.Pos {\n\treturn p.Lbrack", New: "func (p *SliceLit) Pos() token.Pos {\n\treturn p.Lbrack + 1", Expect: "pos-exact/SliceLit"},
 		},
 	})
@@ -136,6 +137,49 @@ func runC17(c *core.Check) {
 			}
 		}
 		return nil
+	}
+
+	// ---------- a position field that an End() method returns as it is must hold the end of the node's last token; the
+	// parser's current position p.pos is the START of the NEXT token (blanks and comments lie in between)
+	for _, fd := range core.AllFuncDecls(ppk) {
+		if fd.Body == nil {
+			continue
+		}
+		ast.Inspect(fd.Body, func(n ast.Node) bool {
+			kv, ok := n.(*ast.KeyValueExpr)
+			if !ok || core.ExprStr(kv.Key) != "NoParenEnd" {
+				return true
+			}
+			o := identObj(pinfo, kv.Value)
+			if o == nil {
+				return true
+			}
+			key := core.FuncName(fd)
+			defs := varDefs(pinfo, fd, o)
+			fromEnd, barePos, bareInDefault := 0, 0, true
+			par := parentMap(fd)
+			ast.Inspect(fd.Body, func(m ast.Node) bool {
+				as, ok := m.(*ast.AssignStmt)
+				if !ok || len(as.Lhs) != 1 || identObj(pinfo, as.Lhs[0]) != o || len(as.Rhs) != 1 {
+					return true
+				}
+				r := nows(core.ExprStr(as.Rhs[0]))
+				switch {
+				case strings.HasSuffix(r, ".End()") || strings.Contains(r, "+"):
+					fromEnd++
+				case r == "p.pos":
+					barePos++
+					if cc, ok := par[as].(*ast.CaseClause); !ok || cc.List != nil {
+						bareInDefault = false
+					}
+				}
+				return true
+			})
+			_ = defs
+			c.Decide(fromEnd > 0 && (barePos == 0 || bareInDefault), "end-next-token", key, kv.Pos(), "NoParenEnd is taken from the end of the call's last token (p.pos only as the fallback arm)",
+				"CallExpr.NoParenEnd — which CallExpr.End() returns as it is — is assigned the parser's current position: that is where the NEXT token starts, so the span of `println a   // hi` includes the blanks before the comment")
+			return true
+		})
 	}
 
 	docs := fieldDocs(apk)
